@@ -636,6 +636,19 @@ pub fn pyverify(prop: &str, scen_path: &str, res_path: &str, tier: Tier, seed: u
                         });
                     }
                 }
+                // load-independent: RRT, RRT-Connect and RRT* put at least one validity query to
+                // the callback in every iteration, and draw at most one goal sample per iteration
+                // (RRT-Connect: plus up to 100 validated ones during setup). A run in which far
+                // more goal samples were drawn than validity queries reached the Python callback
+                // went on planning without consulting the callback.
+                if !is_prm {
+                    if let (Some(vc), Some(gc)) = (r["validity_calls"].as_u64(), r["goal_sample_calls"].as_u64()) {
+                        b.count("callback_consultation_checks", 1);
+                        if gc > vc + 100 {
+                            ctx.violate(&format!("validity-callback-no-longer-consulted:{pname}:{kind}"), format!("{gc} goal samples drawn but only {vc} validity queries reached the Python callback ({cls}; the False callback: {rcls})"), replay.clone());
+                        }
+                    }
+                }
                 if is_prm || cls == "Timeout" || rcls == "Timeout" {
                     // wall-clock dependent: only the "no state in F" check applies
                     b.count("not_comparable(prm_or_timeout)", 1);
